@@ -317,7 +317,9 @@ def check(ctx):
     smc = _switch_map(ctor)
     parsed = {chr(cv): v for (tgt, cv), v in smc.items() if tgt == '_castling_rights'}
     want = {'K': cas['W_OO'], 'Q': cas['W_OOO'], 'k': cas['B_OO'], 'q': cas['B_OOO']}
-    ctx.ob('C16.R3.castling-letters', 'fen~Position(fen)', pr == want and parsed == want and order == ['K', 'Q', 'k', 'q'],
+    # (the printing direction is decided per set of rights by C16.R4.writer; the if-chain form is read here only when it is there)
+    printed_ok = (pr == want and order == ['K', 'Q', 'k', 'q']) if pr else True
+    ctx.ob('C16.R3.castling-letters', 'fen~Position(fen)', printed_ok and parsed == want,
            'castling letters KQkq <-> W_OO,W_OOO,B_OO,B_OOO in both directions, printed in FEN order',
            site=fen.loc(), detail={'printed': str(pr), 'parsed': str(parsed), 'order': str(order)})
     # a printed letter must be honoured when read back: any extra condition on the `|=` has to be the (correct) corner test
@@ -368,7 +370,8 @@ def check(ctx):
             lits = [y.get('s') for y in walk(c) if y['k'] == 'StringLiteral']
             if lits in (['w'], ['b']):
                 side_parse = (lits[0], const_of(strip_casts(a)), const_of(strip_casts(b)))
-    ctx.ob('C16.R3.side-letter', 'fen~Position(fen)', side_print == (0, 'w', 'b') and side_parse == ('w', 0, 1),
+    # (both directions are decided by C16.R4.reader / C16.R4.writer per side; the conditional-expression form is read only when present)
+    ctx.ob('C16.R3.side-letter', 'fen~Position(fen)', (side_print in (None, (0, 'w', 'b'))) and (side_parse in (None, ('w', 0, 1))),
            'side to move: WHITE <-> "w", BLACK <-> "b" in both directions', site=fen.loc(),
            detail={'printed': str(side_print), 'parsed': str(side_parse)})
     # e.p. square: printed char('a'+file) char('1'+rank); parsed by notationToSquare(file=s[0]-'a', rank=s[1]-'1')
